@@ -32,15 +32,16 @@ import (
 )
 
 const (
-	fC02Double      = "F-C02-double-listing"
-	fC02EarlyTie    = "F-C02-early-exit-ties"
-	fC02NegImpTag   = "F-C02-negated-tag-impossible-definition"
-	fC02InlineAlias = "F-C02-inline-tags-shared-backing"
-	fC02CleanConv   = "F-C02-data-clean-ignores-converter-name"
-	fC02NegSeqMulti = "F-C02-negated-sequence-across-converter-outputs"
-	fC02InvSeqNoOut = "F-C02-inverted-sequence-without-converter-output"
-	fC02SubNegHost  = "F-C02-subquery-negated-host"
-	fC02SubSecond   = "F-C02-second-subquery-ignored"
+	fC02Double        = "F-C02-double-listing"
+	fC02EarlyTie      = "F-C02-early-exit-ties"
+	fC02NegImpTag     = "F-C02-negated-tag-impossible-definition"
+	fC02InlineAlias   = "F-C02-inline-tags-shared-backing"
+	fC02CleanConv     = "F-C02-data-clean-ignores-converter-name"
+	fC02NegSeqMulti   = "F-C02-negated-sequence-across-converter-outputs"
+	fC02InvSeqNoOut   = "F-C02-inverted-sequence-without-converter-output"
+	fC02SubNegHost    = "F-C02-subquery-negated-host"
+	fC02SubSecond     = "F-C02-second-subquery-ignored"
+	fC02SubPendingTag = "F-C02-pending-tag-in-subquery"
 )
 
 // ---------------------------------------------------------------------------------------------
@@ -1020,7 +1021,7 @@ func c02Check(w *c02World, sp *c02Search, q *query.Query, cs c02CondShape) (stri
 	for _, v := range w.pop.visible {
 		for _, tg := range w.tags {
 			st := vq.TagState{Matches: td[tg.name].Matches.IsSet(uint(v.s.ID)), Uncertain: td[tg.name].Uncertain.IsSet(uint(v.s.ID))}
-			if st.Uncertain {
+			if st.Uncertain && sp.accept == nil {
 				// ground truth of an undecided stream: the tag's definition (DESIGN §4.4)
 				m, err := vq.EvalNF(tg.def.Conditions, v.s, env)
 				if err != nil {
@@ -1753,6 +1754,36 @@ func c02FixedCases(name string) []c02FixedCase {
 			{files: [][]*vidx.SRec{f}, search: &c02Search{raw: "@s:id:1 -chost:@s:chost@", limit: 100, accept: none}},
 			{files: [][]*vidx.SRec{f}, search: &c02Search{raw: "@s:id:1 chost:@s:chost@", limit: 100, accept: all}},
 		}
+	case fC02SubPendingTag:
+		f := []*vidx.SRec{c02FixedRec(0, 0, 1000, 80, "", &next), c02FixedRec(1, 1000000, 1001, 80, "", &next), c02FixedRec(2, 2000000, 1002, 443, "", &next)}
+		tg := func() []*c02Tag {
+			return []*c02Tag{
+				{name: "mark/m", defText: "id:0", matches: []uint{0}, raw: true},
+				{name: "tag/b", defText: "@q:mark:m sport:@q:sport@", uncertain: []uint{0, 1, 2}, raw: true},
+			}
+		}
+		only := func(ids ...uint64) func(*c02Vis) (bool, error) {
+			return func(v *c02Vis) (bool, error) {
+				for _, id := range ids {
+					if v.s.ID == id {
+						return true, nil
+					}
+				}
+				return false, nil
+			}
+		}
+		return []c02FixedCase{
+			{files: [][]*vidx.SRec{f}, tags: tg(), search: &c02Search{raw: "@q:mark:m sport:@q:sport@", limit: 100, accept: only(0, 1)}},
+			{files: [][]*vidx.SRec{f}, tags: tg(), search: &c02Search{raw: "tag:b", limit: 100, accept: only(0, 1)}},
+			{files: [][]*vidx.SRec{f}, tags: []*c02Tag{
+				{name: "tag/a", defText: "cport:1000", uncertain: []uint{0, 1, 2}, raw: true},
+				{name: "tag/b", defText: "@q:tag:a sport:@q:sport@", uncertain: []uint{0, 1, 2}, raw: true},
+			}, search: &c02Search{raw: "@q:tag:a sport:@q:sport@", limit: 100, accept: only(0, 1)}},
+			{files: [][]*vidx.SRec{f}, tags: []*c02Tag{
+				{name: "tag/a", defText: "cport:1000", uncertain: []uint{0, 1, 2}, raw: true},
+				{name: "tag/b", defText: "@q:tag:a sport:@q:sport@", uncertain: []uint{0, 1, 2}, raw: true},
+			}, search: &c02Search{raw: "tag:b", limit: 100, accept: only(0, 1)}},
+		}
 	case fC02SubSecond:
 		// sub-query a selects stream 1 (client port 1001), sub-query b stream 2 (client port 1002)
 		f := []*vidx.SRec{c02FixedRec(1, 0, 1001, 80, "", &next), c02FixedRec(2, 1000000, 1002, 80, "", &next), c02FixedRec(3, 2000000, 1003, 80, "", &next)}
@@ -1777,7 +1808,7 @@ func c02FixedCases(name string) []c02FixedCase {
 }
 
 func TestVerifC02Fixed(t *testing.T) {
-	names := []string{fC02Double, fC02EarlyTie, fC02NegImpTag, fC02InlineAlias, fC02CleanConv, fC02NegSeqMulti, fC02InvSeqNoOut, fC02SubNegHost, fC02SubSecond}
+	names := []string{fC02Double, fC02EarlyTie, fC02NegImpTag, fC02InlineAlias, fC02CleanConv, fC02NegSeqMulti, fC02InvSeqNoOut, fC02SubNegHost, fC02SubSecond, fC02SubPendingTag}
 	vlib.Fixed(t, "C02", names, func(name string) (string, any) {
 		cases := c02FixedCases(name)
 		if len(cases) == 0 {
